@@ -69,7 +69,7 @@ DistOpts ==
 ---------------------------------------------------------------------------
 (* Seed-driven subsets of a universe U (no randomness inside TLC: a small hash of (Seed, k, i)) *)
 M == 46337
-Mix(x, y) == (((x % M) * (x % M)) + y * 1009 + 12345) % M
+Mix(x, y) == ((((x % M) * (x % M)) % M) + (y % M) * 1009 + 12345) % M
 Rnd(k, i) == Mix(Mix(Mix(Seed % M, k), i), k + i) % 100
 
 Seeded(U, k, ok(_)) ==
@@ -99,7 +99,8 @@ Case(tool, opts, v, mode, D) == [tool |-> tool, opts |-> opts, v |-> v, mode |->
 Init ==
   /\ phase = "case"
   /\ out = <<>>
-  /\ c \in    {Case("data", {}, FALSE, "none", NoD), Case("mux", {}, FALSE, "none", NoD)}
+  /\ c \in    {Case("data", {}, FALSE, "none", NoD)}
+         \cup {Case("mux", {}, FALSE, "none", [NoD EXCEPT !.n = k]) : k \in 1..Len(MuxSets)}
          \cup {Case("grep", S, v, "none", NoD) : S \in GrepSets, v \in BOOLEAN}
          \cup {Case("grep", S, v, m, NoD) : S \in PairSets, v \in BOOLEAN, m \in Modes}
          \cup {Case("annot", S, FALSE, "none", NoD) : S \in AnnotSets}
@@ -121,7 +122,7 @@ Compute ==
   CASE c.tool = "grep"  -> Divide(N, Kept(c))
     [] c.tool = "annot" -> AnnotateOut(Data, c.opts)
     [] c.tool = "dist"  -> Distribute(Data, DataCrc, c.D)
-    [] c.tool = "mux"   -> Divide(Len(MuxReads), {i \in 1..Len(MuxReads) : Identified(MuxReads[i])})
+    [] c.tool = "mux"   -> LET reads == MuxSets[c.D.n] IN Divide(Len(reads), {i \in 1..Len(reads) : Identified(reads[i])})
     [] OTHER            -> <<>>
 
 Step == /\ phase = "case"
@@ -141,7 +142,7 @@ WellFormedCase == phase = "case" =>
 
 (* kept and discarded are complementary, each record once, input order *)
 GrepPartition == (Done("grep") \/ Done("mux")) =>
-  LET n == IF c.tool = "mux" THEN Len(MuxReads) ELSE N IN
+  LET n == IF c.tool = "mux" THEN Len(MuxSets[c.D.n]) ELSE N IN
   /\ IsPartition(n, {out.kept, out.disc})
   /\ \A s \in {out.kept, out.disc} : \A i, j \in 1..Len(s) : i < j => s[i] < s[j]
 
@@ -215,7 +216,7 @@ DistPartition == Done("dist") =>
 B(b) == IF b THEN 1 ELSE 0
 Export == phase = "done" =>
   CSVWrite("%1$s", <<ToJson(
-    CASE c.tool = "data" -> [tool |-> "data", fwd |-> Data, rev |-> Mates, crc |-> DataCrc, mux |-> MuxReads,
+    CASE c.tool = "data" -> [tool |-> "data", fwd |-> Data, rev |-> Mates, crc |-> DataCrc, mux |-> MuxSets,
                              lists |-> [l \in {"L1", "L2"} |-> IdList(l)]]
       [] c.tool = "grep" -> [tool |-> "grep", opts |-> c.opts, v |-> B(c.v), mode |-> c.mode,
                              kept |-> Ids(Data, out.kept), disc |-> Ids(Data, out.disc),
@@ -223,6 +224,6 @@ Export == phase = "done" =>
                              discm |-> IF Paired(c) THEN Ids(Mates, out.disc) ELSE <<>>]
       [] c.tool = "annot" -> [tool |-> "annot", opts |-> c.opts, out |-> out]
       [] c.tool = "dist" -> [tool |-> "dist", D |-> c.D, files |-> [f \in DOMAIN out |-> Ids(Data, out[f])]]
-      [] c.tool = "mux"  -> [tool |-> "mux", kept |-> out.kept, disc |-> out.disc])>>,
+      [] c.tool = "mux"  -> [tool |-> "mux", set |-> c.D.n, kept |-> out.kept, disc |-> out.disc])>>,
     IOEnv.VERIF_CASES)
 =============================================================================
